@@ -62,6 +62,9 @@ class SSETransport(Transport):
         # Message handling - support both immediate and async responses
         self._pending_requests: Dict[str, asyncio.Future] = {}
         self._message_lock = asyncio.Lock()
+        # Per in-flight request: set by the sender once the answer it was handed
+        # is on the incoming stream (the reader waits for it, see below)
+        self._answer_routed: Dict[str, asyncio.Event] = {}
 
         # Memory streams for chuk_mcp message API
         self._incoming_send: Optional[MemoryObjectSendStream] = None
@@ -374,15 +377,25 @@ class SSETransport(Transport):
             # even when it reuses the id of a request of ours that is in flight)
             if message_id is not None and "method" not in message_data:
                 message_id = str(message_id)
+                matched = False
+                routed: Optional[asyncio.Event] = None
                 async with self._message_lock:
                     if message_id in self._pending_requests:
+                        matched = True
                         future = self._pending_requests.pop(message_id)
                         if not future.done():
                             future.set_result(message_data)
+                            routed = self._answer_routed.get(message_id)
                             logger.debug(
                                 f"Resolved pending request {message_id} via SSE"
                             )
-                        return  # Don't route to incoming stream
+                if matched:
+                    # The sender task puts this answer on the incoming stream. Keep the
+                    # order of the event stream: do not read on until it has done so (a
+                    # notification written right behind the answer would overtake it)
+                    if routed is not None:
+                        await routed.wait()
+                    return  # Don't route to incoming stream
 
             # If not a response to pending request, route to incoming stream
             await self._route_incoming_message(message_data)
@@ -457,8 +470,10 @@ class SSETransport(Transport):
                 request_id = message_id  # keeps its JSON type for synthesised errors
                 message_id = str(message_id)
                 future: asyncio.Future[Dict[str, Any]] = asyncio.Future()
+                answer_routed = asyncio.Event()
                 async with self._message_lock:
                     self._pending_requests[message_id] = future
+                    self._answer_routed[message_id] = answer_routed
                     logger.debug(f"Added pending request: {message_id}")
 
                 try:
@@ -558,9 +573,13 @@ class SSETransport(Transport):
                     }
                     await self._route_incoming_message(error_response)
                 finally:
-                    # Clean up pending request
+                    # Clean up pending request (and let the reader go on: whatever
+                    # there was to put on the incoming stream for it is there now)
                     async with self._message_lock:
                         self._pending_requests.pop(message_id, None)
+                        if self._answer_routed.get(message_id) is answer_routed:
+                            del self._answer_routed[message_id]
+                    answer_routed.set()
 
             else:
                 # Notification - no response expected
